@@ -130,6 +130,76 @@ def contents_pool(rng, chunk=16):
 LOCAL_SPELLINGS = ['abs', 'rel', './rel', 'rel/', 'rel//sub/../sub', '.']
 
 
+class CommandStore:
+    """the object commands of replicat (upload-objects / download-objects / list-objects / delete-objects) presented as an
+    object store, so that ObjectStoreTrace.tla can judge them too (conformance only: they are not part of C13's statement)"""
+
+    def __init__(self, root):
+        from replicat.backends.local import Local
+        self.root = str(root)
+        self.repo_dir = os.path.join(self.root, 'cmdrepo')
+        self.stage = os.path.join(self.root, 'stage')
+        os.makedirs(self.repo_dir)
+        os.makedirs(self.stage)
+        self.Local = Local
+
+    def _repo(self):
+        return harness.Repository(self.Local(self.repo_dir), concurrent=3, quiet=True, cache_directory=None)
+
+    async def upload(self, name, data):
+        p = os.path.join(self.stage, name)
+        os.makedirs(os.path.dirname(p), exist_ok=True)
+        with open(p, 'wb') as f:
+            f.write(data)
+        old = os.getcwd()
+        os.chdir(self.stage)
+        try:
+            from pathlib import Path
+            await self._repo().upload_objects([Path(p)])
+        finally:
+            os.chdir(old)
+            os.remove(p)
+
+    async def upload_stream(self, name, stream, length, chunk_size=16):
+        await self.upload(name, stream.read())
+
+    async def download(self, name):
+        import re
+        import tempfile
+        from pathlib import Path
+        d = tempfile.mkdtemp(dir=self.root)
+        r = await self._repo().download_objects(path=Path(d), object_regex='^' + re.escape(name) + '$')
+        p = os.path.join(d, name)
+        if not os.path.isfile(p):
+            raise FileNotFoundError(name)
+        with open(p, 'rb') as f:
+            return f.read()
+
+    async def download_stream(self, name, stream, chunk_size=16):
+        stream.write(await self.download(name))
+
+    async def exists(self, name):
+        import contextlib
+        with contextlib.redirect_stdout(io.StringIO()):
+            r = await self._repo().list_objects(object_prefix=name)
+        return name in r.paths
+
+    async def list_files(self, prefix=''):
+        import contextlib
+        with contextlib.redirect_stdout(io.StringIO()) as out:
+            r = await self._repo().list_objects(object_prefix=prefix)
+        # what the command prints is what it returns
+        if out.getvalue().splitlines() != list(r.paths):
+            raise AssertionError('list-objects printed something else than it returned')
+        return list(r.paths)
+
+    async def delete(self, name):
+        await self._repo().delete_objects([name], confirm=False)
+
+    async def close(self):
+        pass
+
+
 def make_local(spelling, root):
     """-> (backend, cleanup cwd)"""
     from replicat.backends.local import Local
@@ -167,6 +237,8 @@ def one_history(run, kind, seed, nobj, nops, quick, ops_override=None, names_ove
         fake = None
         if kind.startswith('local:'):
             pass
+        elif kind == 'cmd:local':
+            be = CommandStore(d)
         elif kind.startswith('s3:'):
             fake = fakes3.FakeS3(page_size=int(kind.split(':')[1]))
             be = fakes3.client(fake)
@@ -215,7 +287,7 @@ def main(run):
     res = tlc.check_design('ObjectStore', 'MC_ObjectStore.cfg')
     run.add(states=res.distinct, transitions=res.generated)
     traces = []
-    kinds = ['local:' + s for s in LOCAL_SPELLINGS] + ['s3:2', 's3:3', 's3:1000', 'b2:2', 'b2:3', 'b2:1000']
+    kinds = ['local:' + s for s in LOCAL_SPELLINGS] + ['s3:2', 's3:3', 's3:1000', 'b2:2', 'b2:3', 'b2:1000', 'cmd:local']
     for i, kind in enumerate(kinds):
         for rep in range(3 if quick else 12):
             seed = run.seed * 1000 + i * 10 + rep
@@ -250,6 +322,9 @@ def main(run):
         e = t['events'][idx - 1]
         nm = t['name_strings'][e['n'] - 1] if e.get('n') else ''.join(chr(c) for c in e['prefix'])
         cls = 'any'
+        if t['kind'].startswith('cmd:'):
+            run.note_drift('C:object-commands:' + clause[2:])
+            return True
         if e.get('runaway'):
             cls = 'b2: an HTTP error that persists triggers unbounded re-authentication' if t['kind'].startswith('b2') else 'runaway'
         elif t['kind'].startswith('local') and e['k'] == 'list' and any(x.endswith('.tmp') for x in t['name_strings']):
